@@ -16,6 +16,7 @@ fn main() {
     let cfg = GenCfg::default_multi();
     let n = if a.thorough { 6000 } else if a.extended { 3000 } else { 500 };
     let mut cases = corpus();
+    cases.extend(verif_harness::sysrun::finding_witnesses(&["D28"])); // open finding D28-C02 exhibited at every seed
     for _ in 0..n {
         cases.push(gen_multi_case(&mut r, &cfg));
     }
